@@ -118,7 +118,7 @@ theorem exclusionLoop_std (ol or tl tr : Bytes) : ∀ (l : List Nat), (∀ i ∈
 
 theorem normalizeFormat_std : normalizeFormat stdTokenReSrc.format =
     [37, 115, 45, 63, 92, 115, 42, 40, 40, 63, 115, 58, 46, 41, 43, 63, 41, 92, 115, 42, 45, 63, 37, 115, 124,
-     37, 115, 45, 63, 92, 115, 42, 40, 92, 119, 43, 41, 40, 63, 58, 92, 115, 43, 40, 40, 63, 58, 37, 118, 41,
+     37, 115, 45, 63, 92, 115, 42, 40, 92, 119, 43, 41, 40, 63, 58, 92, 115, 43, 40, 40, 63, 58, 37, 115, 41,
      43, 63, 41, 41, 63, 92, 115, 42, 45, 63, 37, 115] := by decide
 
 theorem sprintf_std (a0 a1 a2 a3 a4 : Bytes) :
